@@ -1,6 +1,7 @@
 (* Props/C18.v - Connection ids are unique among live connections and address the right one. *)
 From Coq Require Import List NArith Lia Bool.
 From MM Require Import Lib.Bytes Model.ConnId Proofs.ConnIdProofs Gen.FactsControl Gen.FactsConn Model.Packets Proofs.PacketProofs.
+From MM Require Import Gen.FactsOutline.
 Import ListNotations.
 Open Scope N_scope.
 
@@ -16,6 +17,12 @@ Theorem c18_source_shape :
   server_mysqlserver_client_connected_cb_ok = true /\ connection_connection_start_ok = true /\
   connection_connection_inner_start_ok = true /\ connection_connection_kill_ok = true.
 Proof. repeat split; vm_compute; reflexivity. Qed.
+
+(* the modules this property rests on define the functions, classes, methods and class-level names they defined when the
+   model was transcribed - nothing added (an override, a new helper in the path), removed or renamed *)
+Theorem c18_module_outlines : translated_outline = true /\ outline_control_ok = true /\ outline_server_ok = true /\ outline_utils_ok = true.
+Proof. repeat split; reflexivity. Qed.
+
 
 Lemma Wpos : 0 < W. Proof. reflexivity. Qed.
 
